@@ -142,6 +142,10 @@ def main(tier):
         run.inconclusive_because("too few sparse outputs were judged")
     if run.counters.get("gate_suppressed_coordinate", 0) < 100:
         run.inconclusive_because("the written-flag gate never suppressed a coordinate: the workload did not exercise it")
+    from .. import contracts_leg
+
+    if tier == "thorough":
+        contracts_leg.run(run, PID, tier)
     run.assumptions += [
         "support = refsem over the inputs' stored sets (dense levels store every coordinate, explicit zeros count, literals are everywhere)",
         "the check is an upper bound only: storing fewer coordinates than the support is not a violation",
